@@ -93,6 +93,17 @@ type c29Request struct {
 	Method, Host, Path, Query string
 	Headers                   [][]string // [name, v1, v2, ...], sorted by name
 	Body                      string
+	// generated large body (C28): when BodySpec != "" it replaces Body; the <body> token is BodySpec and the
+	// <payload> token is PayloadHex, the SHA-256 of the bytes net/http delivers for that stream
+	BodySpec   string
+	PayloadHex string
+}
+
+func (q c29Request) bodyTokens() (payload, body string) {
+	if q.BodySpec != "" {
+		return tokBytes(q.PayloadHex), q.BodySpec
+	}
+	return tokBytes(c29Sha(q.Body)), tokBytes(q.Body)
 }
 
 type c29Fact struct{ Secret, Date, Region, Service, Term, Alg, Ts, Scope, CR, Mac string }
@@ -162,9 +173,10 @@ func c29AuthLine(nowNs int64, region string, creds [][]string, q c29Request, fac
 	for i, f := range facts {
 		fl[i] = f.fields()
 	}
+	pl, bd := q.bodyTokens()
 	return strings.Join([]string{"AUTH", strconv.FormatInt(nowNs, 10), tokBytes(region), c29TokList2(creds),
 		tokBytes(q.Method), tokBytes(q.Host), tokBytes(q.Path), tokBytes(q.Query), c29TokList2(q.Headers),
-		tokBytes(c29Sha(q.Body)), tokBytes(q.Body), c29TokList2(fl), expect}, " ")
+		pl, bd, c29TokList2(fl), expect}, " ")
 }
 
 func c29CanonLine(presigned bool, include []string, q c29Request, expect string) string {
@@ -178,6 +190,13 @@ func c29CanonLine(presigned bool, include []string, q c29Request, expect string)
 
 // the *http.Request net/http's server would hand to the handlers for this server-side view
 func c29BuildRequest(q c29Request) (*http.Request, error) {
+	if q.BodySpec != "" {
+		sp, err := c29ParseBodySpec(q.BodySpec)
+		if err != nil {
+			return nil, err
+		}
+		return c29WireRequest(q, sp)
+	}
 	target := q.Path
 	if q.Query != "" {
 		target += "?" + q.Query
@@ -194,6 +213,174 @@ func c29BuildRequest(q c29Request) (*http.Request, error) {
 		Body: io.NopCloser(strings.NewReader(q.Body)), ContentLength: int64(len(q.Body)), Host: q.Host, RequestURI: target,
 		RemoteAddr: "192.0.2.1:1234"}
 	return r.WithContext(context.Background()), nil
+}
+
+// ---------------------------------------------------------------------------------------------
+// generated large bodies (C28).  <body> token:
+//
+//	@<received length>,<error 0|1>,<sent length>,<seed>,<flip position or ->,<k|c|t>
+//
+// The first two fields are what the model reads: how many bytes r.Body delivers and whether it then fails.
+// The stream: <sent length> bytes of a cheap pattern derived from <seed>, the byte at <flip position> inverted;
+// k = sent as is after the headers (the Content-Length header of the case decides how much net/http delivers),
+// c = chunked transfer coding in 1 MiB chunks, t = chunked without the terminating chunk (broken stream).
+// The request is then produced by the real http.ReadRequest from the wire bytes.
+type c29BodySpec struct {
+	RecvLen int64
+	Err     bool
+	SentLen int64
+	Seed    uint64
+	Flip    int64 // -1 = none
+	Xfer    string
+}
+
+func c29ParseBodySpec(t string) (c29BodySpec, error) {
+	var sp c29BodySpec
+	f := strings.Split(strings.TrimPrefix(t, "@"), ",")
+	if len(f) != 6 {
+		return sp, fmt.Errorf("malformed body spec")
+	}
+	var err error
+	if sp.RecvLen, err = strconv.ParseInt(f[0], 10, 64); err != nil {
+		return sp, err
+	}
+	sp.Err = f[1] == "1"
+	if sp.SentLen, err = strconv.ParseInt(f[2], 10, 64); err != nil {
+		return sp, err
+	}
+	if sp.Seed, err = strconv.ParseUint(f[3], 10, 64); err != nil {
+		return sp, err
+	}
+	sp.Flip = -1
+	if f[4] != "-" {
+		if sp.Flip, err = strconv.ParseInt(f[4], 10, 64); err != nil {
+			return sp, err
+		}
+	}
+	sp.Xfer = f[5]
+	return sp, nil
+}
+
+func (sp c29BodySpec) String() string {
+	e, fl := "0", "-"
+	if sp.Err {
+		e = "1"
+	}
+	if sp.Flip >= 0 {
+		fl = strconv.FormatInt(sp.Flip, 10)
+	}
+	return fmt.Sprintf("@%d,%s,%d,%d,%s,%s", sp.RecvLen, e, sp.SentLen, sp.Seed, fl, sp.Xfer)
+}
+
+const c29PatternPeriod = 65521
+
+var c29PatternCache sync.Map
+
+func c29PatternBlock(seed uint64) []byte {
+	if b, ok := c29PatternCache.Load(seed); ok {
+		return b.([]byte)
+	}
+	b := NewRng(seed).Bytes(c29PatternPeriod)
+	c29PatternCache.Store(seed, b)
+	return b
+}
+
+// streams bytes [pos, end) of the pattern body
+type c29PatternReader struct {
+	blk      []byte
+	pos, end int64
+	flip     int64
+}
+
+func (p *c29PatternReader) Read(b []byte) (int, error) {
+	if p.pos >= p.end {
+		return 0, io.EOF
+	}
+	n := 0
+	for n < len(b) && p.pos < p.end {
+		off := int(p.pos % c29PatternPeriod)
+		k := copy(b[n:], p.blk[off:])
+		if int64(k) > p.end-p.pos {
+			k = int(p.end - p.pos)
+		}
+		if p.flip >= p.pos && p.flip < p.pos+int64(k) {
+			b[n+int(p.flip-p.pos)] ^= 0xff
+		}
+		n += k
+		p.pos += int64(k)
+	}
+	return n, nil
+}
+
+func (sp c29BodySpec) section(from, to int64) io.Reader {
+	return &c29PatternReader{blk: c29PatternBlock(sp.Seed), pos: from, end: to, flip: sp.Flip}
+}
+
+// the bytes that follow the header block on the wire
+func (sp c29BodySpec) wireBody() io.Reader {
+	if sp.Xfer == "k" {
+		return sp.section(0, sp.SentLen)
+	}
+	const chunk = 1 << 20
+	var parts []io.Reader
+	for off := int64(0); off < sp.SentLen; off += chunk {
+		end := off + chunk
+		if end > sp.SentLen {
+			end = sp.SentLen
+		}
+		parts = append(parts, strings.NewReader(fmt.Sprintf("%x\r\n", end-off)), sp.section(off, end), strings.NewReader("\r\n"))
+	}
+	if sp.Xfer == "c" {
+		parts = append(parts, strings.NewReader("0\r\n\r\n"))
+	}
+	return io.MultiReader(parts...)
+}
+
+// the request as the real net/http parser produces it from the wire form of the case's server-side view
+func c29WireRequest(q c29Request, sp c29BodySpec) (*http.Request, error) {
+	target := q.Path
+	if q.Query != "" {
+		target += "?" + q.Query
+	}
+	var head strings.Builder
+	head.WriteString(q.Method + " " + target + " HTTP/1.1\r\nHost: " + q.Host + "\r\n")
+	for _, h := range q.Headers {
+		for _, v := range h[1:] {
+			head.WriteString(h[0] + ": " + v + "\r\n")
+		}
+	}
+	if sp.Xfer != "k" {
+		head.WriteString("Transfer-Encoding: chunked\r\n")
+	}
+	head.WriteString("\r\n")
+	req, err := http.ReadRequest(bufio.NewReaderSize(io.MultiReader(strings.NewReader(head.String()), sp.wireBody()), 1<<16))
+	if err != nil {
+		return nil, err
+	}
+	delete(req.Header, "Host")
+	req.RemoteAddr = "192.0.2.1:1234"
+	if req.Method != q.Method || req.Host != q.Host || req.RequestURI != target || fmt.Sprint(c29HeaderList(req.Header)) != fmt.Sprint(q.Headers) {
+		return nil, fmt.Errorf("the wire form does not parse back to the case's server-side view")
+	}
+	return req.WithContext(context.Background()), nil
+}
+
+// independent observation of what net/http delivers for the stream: length, error, SHA-256 — must be what the case says
+func c29CheckBodySpec(q c29Request) string {
+	sp, err := c29ParseBodySpec(q.BodySpec)
+	if err != nil {
+		return err.Error()
+	}
+	req, err := c29WireRequest(q, sp)
+	if err != nil {
+		return err.Error()
+	}
+	h := sha256.New()
+	n, rerr := io.Copy(h, req.Body)
+	if n != sp.RecvLen || (rerr != nil) != sp.Err || hex.EncodeToString(h.Sum(nil)) != q.PayloadHex {
+		return fmt.Sprintf("body spec does not describe the received bytes (got %d bytes, err=%v)", n, rerr)
+	}
+	return ""
 }
 
 // ---------------------------------------------------------------------------------------------
@@ -621,8 +808,14 @@ func (c29) Gen(r *Rng, tier string, n int) []string {
 // running a case on the real code
 
 func c29ParseRequest(f []string) c29Request {
-	return c29Request{Method: untokBytes(f[0]), Host: untokBytes(f[1]), Path: untokBytes(f[2]), Query: untokBytes(f[3]),
-		Headers: c29UntokList2(f[4]), Body: untokBytes(f[6])}
+	q := c29Request{Method: untokBytes(f[0]), Host: untokBytes(f[1]), Path: untokBytes(f[2]), Query: untokBytes(f[3]),
+		Headers: c29UntokList2(f[4])}
+	if strings.HasPrefix(f[6], "@") {
+		q.BodySpec, q.PayloadHex = f[6], untokBytes(f[5])
+	} else {
+		q.Body = untokBytes(f[6])
+	}
+	return q
 }
 
 func c29Tags(q c29Request, presigned bool) []string {
@@ -661,6 +854,26 @@ func c29Tags(q c29Request, presigned bool) []string {
 			break
 		}
 	}
+	if q.BodySpec != "" {
+		if sp, err := c29ParseBodySpec(q.BodySpec); err == nil {
+			switch {
+			case sp.RecvLen > 10000000:
+				tags = append(tags, "body-above-memory-limit")
+			case sp.RecvLen == 10000000:
+				tags = append(tags, "body-at-memory-limit")
+			default:
+				tags = append(tags, "body-below-memory-limit")
+			}
+			if sp.Xfer == "k" {
+				tags = append(tags, "body-known-length")
+			} else {
+				tags = append(tags, "body-chunked")
+			}
+			if sp.Err {
+				tags = append(tags, "body-read-error")
+			}
+		}
+	}
 	for _, h := range q.Headers {
 		if h[0] == "X-Amz-Content-Sha256" && len(h) > 1 && strings.HasPrefix(h[1], "STREAMING") {
 			tags = append(tags, "streaming-seed")
@@ -673,7 +886,11 @@ func c29RunCanon(f []string) Result {
 	presigned := f[1] == "1"
 	include := untokList(f[2])
 	q := c29ParseRequest(f[3:10])
-	if untokBytes(f[8]) != c29Sha(q.Body) {
+	if q.BodySpec != "" {
+		if bad := c29CheckBodySpec(q); bad != "" {
+			return Result{Out: "BADCASE", Oracle: "FAIL:" + bad, Tags: []string{"badcase"}}
+		}
+	} else if untokBytes(f[8]) != c29Sha(q.Body) {
 		return Result{Out: "BADCASE", Oracle: "FAIL:payload token is not the SHA-256 of the body", Tags: []string{"badcase"}}
 	}
 	req, err := c29BuildRequest(q)
@@ -682,7 +899,7 @@ func c29RunCanon(f []string) Result {
 	}
 	cr, err := authentication.VerifGenerateCanonicalRequest(req, include, presigned)
 	if err != nil {
-		return Result{Out: "ERROR", Oracle: "FAIL:" + err.Error(), Tags: []string{"error"}}
+		return Result{Out: "ERROR", Oracle: "-", Tags: []string{"canon", "body-read-error"}}
 	}
 	tags := append([]string{"canon"}, c29Tags(q, presigned)...)
 	oracle := "-"
@@ -713,7 +930,11 @@ func c29ParseAuth(f []string) (c29AuthCase, string) {
 	c.Region = untokBytes(f[2])
 	c.Creds = c29UntokList2(f[3])
 	c.Req = c29ParseRequest(f[4:11])
-	if untokBytes(f[9]) != c29Sha(c.Req.Body) {
+	if c.Req.BodySpec != "" {
+		if bad := c29CheckBodySpec(c.Req); bad != "" {
+			return c, bad
+		}
+	} else if untokBytes(f[9]) != c29Sha(c.Req.Body) {
 		return c, "payload token is not the SHA-256 of the body"
 	}
 	for _, l := range c29UntokList2(f[11]) {
